@@ -130,6 +130,26 @@ Definition all_ok (l : list string) : string :=
   | bad => String.concat "/" bad
   end.
 
+(* C16: what the canvas saw.  activities / executed updates ; every point has one coordinate per rank of
+   the tensor handed to createCanvas ; all (space, time) stamps distinct *)
+Definition canvas_report (st : state) : string :=
+  let acts := filter (fun ev => String.eqb (fst ev) "canvas.addActivity") (log st) in
+  let ranks := match find (fun ev => String.eqb (fst ev) "createCanvas") (log st) with
+               | Some (_, ts) => map (fun tv => match get_tensor st tv with Some (ids, _, _) => Some (length ids) | None => None end) ts
+               | None => [] end in
+  let arity_ok :=
+    forallb (fun ev =>
+               let pts := removelast (snd ev) in
+               Nat.eqb (length pts) (length ranks) &&
+               forallb (fun pr => match pr with
+                                  | (VTuple cs, Some n) => Nat.eqb (length cs) n
+                                  | _ => false end) (combine pts ranks)) acts in
+  let stamps := map (fun ev => last (snd ev) VNone) acts in
+  let distinct :=
+    (fix go (l : list value) : bool :=
+       match l with [] => true | x :: l' => negb (existsb (veqb x) l') && go l' end) stamps in
+  show_nat (length acts) ++ "/" ++ show_nat (count_log st "update") ++ "," ++ show_bool arity_ok ++ "," ++ show_bool distinct.
+
 Record rcase := mkCase {
   c_prog : program;
   c_globals : list (positive * string);
@@ -147,7 +167,7 @@ Definition report (c : rcase) : string :=
   | Er e => "ERR " ++ show_err e
   | Ok st =>
       "RAN;" ++ all_ok (map (check_out st) (c_outs c)) ++ ";" ++ all_ok (map (check_input st) (c_inputs c)) ++ ";" ++
-      all_ok (map (check_name st) (c_names c))
+      all_ok (map (check_name st) (c_names c)) ++ ";" ++ canvas_report st
   end.
 
 (* expected outputs computed by the dense oracle *)
